@@ -590,6 +590,7 @@ contract('Queue.enqueue', module=M, props=['C02', 'C03'],
          params={'self': 'Queue', 'envelope': 'Envelope'},
          returns='List[Tuple[Envelope, WriteResult]]',
          requires=['QUEUE_ok(self)', 'envelope != None', 'self.store != None',
+                   'self.queue_policies != None', 'forall(self.queue_policies, lambda p: p != None)',
                    'forall(Str, lambda x: implies(x in self.attempting, x in self.active_ids))'],
          ensures=['result != None', 'len(result) == len(self.last_written)',
                   # every element pairs the k-th envelope with the outcome of ITS write; outcomes are ids or QueueErrors
@@ -600,7 +601,8 @@ contract('Queue.enqueue', module=M, props=['C02', 'C03'],
                   '       cast(result[k][1], Str) in self.active_ids))',
                   'forall(Str, lambda x: implies(x in self.attempting, x in self.active_ids))'],
          raises={'OtherException': []},
-         modifies=['contents(self.active_ids)', 'contents(self.attempting)', 'self.last_written'],
+         modifies=['contents(self.active_ids)', 'contents(self.attempting)', 'self.last_written',
+                   'envelope.*', 'fresh'],
          loops={0: dict(modifies=['contents(self.active_ids)', 'contents(self.attempting)'],
                         inv=['forall(Str, lambda x: implies(x in self.attempting, x in self.active_ids))',
                              'forall(range(0, _k), lambda k: isinstance(results[k][1], str) or isinstance(results[k][1], QueueError))',
@@ -646,3 +648,28 @@ contract('Queue._run_policies', module=M, props=['C16', 'C02'],
          ensures=['result != None', 'fresh(result)', 'is_list(result)',
                   'forall(result, lambda e: allocated(e))'],
          modifies=['envelope.*', 'fresh'])
+
+
+# ---------------------------------------------------------------------------- bounce hand-over (C13)
+klass('BounceFactory')
+extern('BounceFactory.__call__', params={'self': 'BounceFactory', 'envelope': 'Envelope', 'reply': 'Reply'},
+       returns='Opt[Envelope]', ensures=['implies(result != None, fresh(result))'],
+       notes='bounce_factory(envelope, reply): a new Bounce (an Envelope) or None (C13 quantifies over custom factories)')
+klass('Queue', fields={'bounce_factory': 'BounceFactory'})
+klass('AnyQueue')
+extern('AnyQueue.enqueue', params={'self': 'AnyQueue', 'envelope': 'Envelope'}, returns='Any', yields=True,
+       notes='bounce_queue.enqueue(bounce): the normal enqueue path of the configured bounce queue (Queue.enqueue has its own contract)')
+klass('Queue', fields={'bounce_queue': 'AnyQueue'})
+
+contract('Queue._bounce', module=M, props=['C13'],
+         params={'self': 'Queue', 'envelope': 'Envelope', 'reply': 'Reply'},
+         returns='Any',
+         requires=['self.bounce_factory != None', 'self.bounce_queue != None'],
+         ensures=['ncalls("BounceFactory.__call__") == 1',
+                  'same(call_arg("BounceFactory.__call__", 0, 1), envelope) and same(call_arg("BounceFactory.__call__", 0, 2), reply)',
+                  # handed to the configured bounce queue exactly once iff the factory produced a bounce
+                  'ncalls("AnyQueue.enqueue") == ite(call_result("BounceFactory.__call__", 0) != None, 1, 0)',
+                  'implies(ncalls("AnyQueue.enqueue") == 1, '
+                  '   same(call_arg("AnyQueue.enqueue", 0, 0), self.bounce_queue) '
+                  '   and same(call_arg("AnyQueue.enqueue", 0, 1), call_result("BounceFactory.__call__", 0)))'],
+         modifies=[])
